@@ -78,6 +78,21 @@ void value_checks(Seq const &s, int val, char const *name)
     chkk(ids(src) == want, lazy_key("algorithm::remove|final-state", name), [&] { return "remove(" + show(s) + ", " + std::to_string(val) + ") left ids " + show(ids(src)) + ", expected " + show(want); });
     chkk(r == (first >= 0), lazy_key(first >= 0 ? "algorithm::remove|return-value|something-removed" : "algorithm::remove|return-value|nothing-removed", name), [&] { return "remove(" + show(s) + ", " + std::to_string(val) + ") returned " + std::to_string(r); });
   }
+  // the value to remove refers to an element of the container itself: remove(c, c.front()) removes
+  // every element equal to the value the argument had at the call (the implementation copies it)
+  if constexpr (Indexable)
+  {
+    if (s.len > 0 && val < s.len)
+    {
+      C src = make<C>(s);
+      int const aliased = s.at(static_cast<int>(val));
+      bool const r = fcppt::algorithm::remove(src, src[static_cast<std::size_t>(val)]);
+      IV want;
+      for (int i = 0; i < s.len; ++i)
+        if (s.at(i) != aliased) want.push_back(s.at(i) * 16 + i);
+      chkk(ids(src) == want && r, lazy_key("algorithm::remove|argument-aliases-an-element", name), [&] { return "remove(c, c[" + std::to_string(val) + "]) on " + show(s) + " left ids " + show(ids(src)) + ", expected " + show(want); });
+    }
+  }
 }
 void value_case(i64 len_, i64 code_, i64 val_)
 {
